@@ -744,6 +744,22 @@ func readConfigFile() (fileData []byte, err error) {
 
 // Saves configuration to the YAML file and also saves the user filter contents to a file
 func (c *configuration) write(tlsMgr *tlsManager) (err error) {
+	if tlsMgr == nil {
+		return c.writeWithTLS(nil)
+	}
+
+	// Lock the TLS manager before c, since that is the order in which its HTTP
+	// handlers lock them, see [tlsManager.handleTLSConfigure].
+	tlsMgr.mu.Lock()
+	defer tlsMgr.mu.Unlock()
+
+	return c.writeWithTLS(tlsMgr.conf)
+}
+
+// writeWithTLS saves the configuration to the YAML file.  If tlsConf is not
+// nil, it is saved as the current TLS configuration, and the mutex protecting
+// it is expected to be locked.
+func (c *configuration) writeWithTLS(tlsConf *tlsConfigSettings) (err error) {
 	c.Lock()
 	defer c.Unlock()
 
@@ -751,9 +767,8 @@ func (c *configuration) write(tlsMgr *tlsManager) (err error) {
 		config.Users = globalContext.auth.usersList()
 	}
 
-	if tlsMgr != nil {
-		tlsConf := tlsMgr.config()
-		config.TLS = *tlsConf
+	if tlsConf != nil {
+		config.TLS = *tlsConf.clone()
 	}
 
 	if globalContext.stats != nil {
